@@ -290,6 +290,7 @@ type txSess struct {
 	// reads of this transaction: target key -> committed version at the time of the read
 	readVer   map[string]int
 	readOrder []txReadKey
+	lateRefs  int // references made in this transaction to branches created after its snapshot
 }
 
 type txReadKey struct {
@@ -320,6 +321,7 @@ func (m *txModel) begin(s *txSess) {
 	s.dirtyBranch = ""
 	s.readVer = map[string]int{}
 	s.readOrder = nil
+	s.lateRefs = 0
 }
 
 func (m *txModel) end(s *txSess) {
